@@ -4,6 +4,7 @@ PKGS = {
     "bscript": ("./bscript", "bscript"),
     "interpreter": ("./bscript/interpreter", "interpreter"),
     "ord": ("./ord", "ord"),
+    "debug": ("./bscript/interpreter/debug", "debug"),
 }
 
 PROPS = {
@@ -65,6 +66,7 @@ PROPS = {
             {"pkg": "bt", "name": "VH_C16_TxJSON", "quick": {"params": {"IN": 1, "OUT": 1, "INSC": 0}}, "thorough": {"params": {"IN": 2, "OUT": 2, "INSC": 0}}},
             {"pkg": "bt", "name": "VH_C16_TxNodeJSON", "quick": {"params": {"IN": 1, "OUT": 1, "INSC": 0}}, "thorough": {"params": {"IN": 2, "OUT": 2, "INSC": 1}}},
             {"pkg": "bt", "name": "VH_C16_OutputUTXO", "fp_dual": True},
+            {"pkg": "bt", "name": "VH_C16_TxsJSON", "quick": {"params": {"NTX": 2, "IN": 1, "OUT": 0, "INSC": 0}}, "thorough": {"params": {"NTX": 2, "IN": 1, "OUT": 1, "INSC": 0}}},
         ],
         "assumptions": [],
     },
@@ -73,6 +75,7 @@ PROPS = {
             {"pkg": "interpreter", "name": "VH_C19_Step", "quick": {"params": {"D": 2, "K": 1, "C": 1, "U": 4}}, "thorough": {"params": {"D": 3, "K": 1, "C": 2, "U": 4}}},
             {"pkg": "interpreter", "name": "VH_C19_Execute", "quick": {"params": {"L": 1}}, "thorough": {"params": {"L": 1}}},
             {"pkg": "interpreter", "name": "VH_C19_P2SH", "quick": {"params": {"R": 1}}, "thorough": {"params": {"R": 1}}},
+            {"pkg": "debug", "name": "VH_C19_DebugPkg", "quick": {"params": {"L": 1, "COND": 1, "USDATA": 0}}, "thorough": {"params": {"L": 1, "COND": 1, "USDATA": 1}}},
         ],
         "assumptions": [],
     },
